@@ -449,32 +449,65 @@ def sec_conv(ck, U):
 # ----------------------------------------------------------------------------
 # section 2: formulae
 # ----------------------------------------------------------------------------
+TERM_POOL = ["x", "y", "z", "age", "A1", "b2", "Zed", "w0", "m", "t9", "K", "ab", "sez", "G"]
+FAC_POOL = ["f", "g", "sex", "Grp", "c3", "zz", "a", "B", "q7", "Yf"]
+LEVEL_POOLS = [None, None, ["a", "b", "c"], ["f", "m", "x"], ["B", "a", "C"], ["1x", "y2", "Z"]]   # None: integer levels 1..3
+
+
 class Universe:
+    """numeric terms + factors with names drawn from pools whose mutual sort order varies (term names before /
+    after the factor-level names, mixed case, digits), integer or string levels, shuffled record field order.
+    Model rows hold integers: numeric values, and level CODES 1..3 for the factor columns."""
+
     def __init__(self, rng, FM, nt, nfac, nrows):
         self.FM = FM
-        self.num_names = ["x", "y", "z"][:nt]
-        self.fac_names = ["f", "g"][:nfac]
+        self.num_names = [TERM_POOL[k] for k in rng.choice(len(TERM_POOL), size=nt, replace=False)]
+        fpool = [n for n in FAC_POOL if n not in self.num_names]
+        self.fac_names = [fpool[k] for k in rng.choice(len(fpool), size=nfac, replace=False)]
+        self.lev_pool = [LEVEL_POOLS[int(rng.integers(0, len(LEVEL_POOLS)))] for _ in range(nfac)]
         self.nt, self.nfac = nt, nfac
         rows = []
         for _ in range(nrows):
             rows.append([int(rng.integers(-3, 4)) for _ in range(nt)] + [int(rng.integers(1, 4)) for _ in range(nfac)])
         self.rows = rows
-        dtype = [(n, np.float64) for n in self.num_names] + [(n, np.int_) for n in self.fac_names]
-        self.data = np.array([tuple(r) for r in rows], dtype=dtype)
+        fields = [(n, np.float64) for n in self.num_names] + [
+            (n, np.int_ if self.lev_pool[j] is None else "U2") for j, n in enumerate(self.fac_names)]
+        order = [int(k) for k in rng.permutation(len(fields))]           # design() reads fields by NAME
+        self.data = np.array([tuple(self.py_value(c, r[c]) for c in order) for r in rows], dtype=[fields[c] for c in order])
         self.terms = [FM.Term(n) for n in self.num_names]
         self.atoms = [("num", c, None) for c in range(nt)]
         self.sym2atom = {n: c for c, n in enumerate(self.num_names)}
+        self.atom_name = list(self.num_names)
         self.factors = []
         for j, name in enumerate(self.fac_names):
             col = nt + j
             present = sorted(set(r[col] for r in rows))
             levels = present if rng.integers(0, 3) else [1, 2, 3][:int(rng.integers(1, 4))]
-            idx = []
-            for lev in levels:
-                idx.append(len(self.atoms))
-                self.sym2atom["%s_%d" % (name, lev)] = len(self.atoms)
+            if rng.integers(0, 2):
+                levels = [levels[k] for k in rng.permutation(len(levels))]
+            self.factors.append(self.make_factor(j, levels))
+
+    def py_value(self, c, v):
+        if c < self.nt or self.lev_pool[c - self.nt] is None:
+            return v
+        return self.lev_pool[c - self.nt][v - 1]
+
+    def make_factor(self, j, codes):
+        """Factor over the level codes `codes` of factor j; registers its level atoms (once)"""
+        name, col = self.fac_names[j], self.nt + j
+        idx = []
+        for lev in codes:
+            key = "%s_%s" % (name, self.py_value(col, lev))
+            if key not in self.sym2atom:
+                self.sym2atom[key] = len(self.atoms)
                 self.atoms.append(("lev", col, lev))
-            self.factors.append((FM.Factor(name, levels), idx, levels, col))
+                self.atom_name.append(key)
+            idx.append(self.sym2atom[key])
+        return (self.FM.Factor(name, [self.py_value(col, lev) for lev in codes]), idx, list(codes), col)
+
+    def describe(self):
+        return {"fields": list(self.data.dtype.names), "atoms": self.atom_name,
+                "records": [list(map(str, r)) for r in self.data.tolist()]}
 
     def coq_atoms(self):
         return "[" + "; ".join("ANum %s" % cnat(c) if k == "num" else "ALev %s %s" % (cnat(c), cz(l)) for k, c, l in self.atoms) + "]"
@@ -511,12 +544,12 @@ def gen_formula(rng, U, depth):
     """returns (python Formula, coq fexpr, description)"""
     FM = U.FM
     if depth == 0 or rng.integers(0, 4) == 0:
-        k = int(rng.integers(0, 4 if U.nfac else 3))
+        k = min(3, int(rng.integers(0, 6 if U.nfac else 3)))      # with factors present, half of the leaves are factors
         if k == 0:
             return FM.I, "EOne", "I"
         if k == 3:
             fac, idx, levels, col = U.factors[int(rng.integers(0, U.nfac))]
-            return fac, "(EAtoms true %s)" % ("[" + "; ".join(cnat(i) for i in idx) + "]"), "Factor(%s,%s)" % (fac.name, levels)
+            return fac, "(EAtoms true %s)" % ("[" + "; ".join(cnat(i) for i in idx) + "]"), "Factor(%s,%s)" % (fac.name, [str(l) for l in fac.levels])
         size = 1 if k == 1 else int(rng.integers(1, U.nt + 1))
         sel = [int(v) for v in rng.choice(U.nt, size=size, replace=False)]
         if k == 1:
@@ -564,14 +597,29 @@ def check_ops(ck, FM, rng, U):
     ck.count(("ops", da, db), bucket="formula:ops")
 
 
+def name_order_feature(U, mult):
+    """structural feature of a formula for failure signatures: which kinds of atoms it uses and how their names sort"""
+    used = set(a for mon in mult for a, e in enumerate(mon) if e)
+    nums = sorted(U.atom_name[a] for a in used if U.atoms[a][0] == "num")
+    levs = sorted(U.atom_name[a] for a in used if U.atoms[a][0] == "lev")
+    if not levs:
+        return "numeric-terms-only"
+    if not nums:
+        return "factor-terms-only"
+    if nums[0] < levs[-1] and levs[0] < nums[-1]:
+        return "mixed/term-and-level-names-interleaved"
+    return "mixed/term-name-sorts-before-level-names" if nums[-1] < levs[0] else "mixed/level-names-sort-before-term-name"
+
+
 def sec_formulae(ck, FM):
     rng = ck.rng("formulae")
     B = Batch(ck, "design/model-vs-impl", lambda r: "%s .design(%s) -> impl columns %s" % (r["formula"], r["rows"], r["impl"]))
     N = ck.n(150, 1500)
     n_dup = 0
+    feats = {}
     for i in range(N):
         nt = 1 + i % 3
-        nfac = (i // 3) % 3
+        nfac = [0, 1, 1, 2, 2][(i // 3) % 5]
         U = Universe(rng, FM, nt, nfac, int(rng.integers(1, 6)))
         f, cexpr, desc = gen_formula(rng, U, 1 + i % 3)
         check_ops(ck, FM, rng, U)
@@ -589,10 +637,18 @@ def sec_formulae(ck, FM):
                 if any(v.denominator != 1 for v in col) or len(col) != len(U.rows):
                     raise AssertionError("non-integer or mis-shaped column %s: %s" % (nm, col))
                 impl.append((k, mon, [int(v) for v in col]))
+            # named-field view (recarray, return_float=False) against the design expressions and the float matrix
+            if list(names) != [str(e) for e in exprs] and list(names) != ["intercept"]:
+                ck.fail("design/field-names", "%s: recarray fields %s, design expressions %s" % (desc, list(names), [str(e) for e in exprs]),
+                        {"formula": desc, "universe": U.describe(), "fields_of_design": list(names)})
+            Dm = np.asarray(f.design(U.data, return_float=True), dtype=float).reshape(len(U.rows), -1)
+            if Dm.shape[1] != len(names) or any(not np.array_equal(Dm[:, j], np.asarray(d[nm], dtype=float).ravel()) for j, nm in enumerate(names)):
+                ck.fail("design/float-vs-named-fields", "%s: design(return_float=True) columns differ from the recarray fields %s" % (desc, list(names)),
+                        {"formula": desc, "universe": U.describe(), "float": Dm.tolist(), "named": {nm: np.asarray(d[nm], dtype=float).ravel().tolist() for nm in names}})
         except (ValueError, AttributeError, TypeError) as e:
             if len(f.terms) != 0:
                 ck.fail("design/raises", "%s .design raised %s: %s" % (desc, type(e).__name__, e),
-                        {"formula": desc, "rows": U.rows, "fields": U.num_names + U.fac_names})
+                        {"formula": desc, "rows": U.rows, "universe": U.describe()})
                 continue
             impl = None
         terms = list(f.terms)
@@ -602,13 +658,14 @@ def sec_formulae(ck, FM):
         dup = any(v > 1 for v in mult.values())
         n_dup += dup
         ck.count(("design", desc, tuple(map(tuple, U.rows))), nontrivial=len(terms) > 1,
-                 bucket="design:terms=%s:fac=%d%s" % (min(len(terms), 6) if len(terms) < 6 else "6+", nfac, ":dup" if dup else ""))
+                 bucket="design:terms=%s:%s%s" % (len(terms) if len(terms) < 6 else "6+", name_order_feature(U, mult), ":dup" if dup else ""))
+        feats[name_order_feature(U, mult)] = feats.get(name_order_feature(U, mult), 0) + 1
         # oracle: one column per distinct term, column = term evaluated row-wise
         if impl is not None:
             cols = {mon: (k, col) for k, mon, col in impl}
             if len(cols) != len(impl) or set(cols) != set(mult):
                 ck.fail("design/columns-vs-terms", "%s: design monomials %s, formula terms %s" % (desc, sorted(cols), sorted(mult)),
-                        {"formula": desc, "rows": U.rows, "fields": U.num_names + U.fac_names})
+                        {"formula": desc, "rows": U.rows, "universe": U.describe()})
             else:
                 for mon, m in mult.items():
                     k, col = cols[mon]
@@ -618,40 +675,45 @@ def sec_formulae(ck, FM):
                     if m > 1 and k == m and col == [m * w for w in want]:
                         ck.fail("design/duplicate-term-column-scaled",
                                 "%s lists the term %s %d times; its design column is %d*term = %s instead of %s" % (desc, mon, m, m, col, want),
-                                {"formula": desc, "rows": U.rows, "fields": U.num_names + U.fac_names, "term": list(mon), "impl": col, "expected": want})
+                                {"formula": desc, "rows": U.rows, "universe": U.describe(), "term": list(mon), "impl": col, "expected": want})
                     else:
-                        ck.fail("design/column-not-term", "%s: column of term %s is %s*%s, term evaluates to %s" % (desc, mon, k, col, want),
-                                {"formula": desc, "rows": U.rows, "fields": U.num_names + U.fac_names, "term": list(mon), "impl": col, "expected": want})
+                        tname = "*".join("%s%s" % (U.atom_name[a], "" if e == 1 else "**%d" % e) for a, e in enumerate(mon) if e) or "1"
+                        ck.fail("design/column-not-term/" + name_order_feature(U, mult),
+                                "%s: design field of term %s is %s*%s, the term evaluated on the records gives %s" % (desc, tname, k, col, want),
+                                {"formula": desc, "rows": U.rows, "universe": U.describe(), "term": tname, "impl": col, "expected": want})
                         break
         cimpl = "None" if impl is None else "(Some [%s])" % "; ".join(
             "(%s, %s, %s)" % (cz(k), "[" + "; ".join(cnat(e) for e in mon) + "]", czl(col)) for k, mon, col in impl)
         mt = "design %s %s %s" % (U.coq_atoms(), cexpr, U.coq_data())
         B.add("design_agrees %s %s %s %s" % (U.coq_atoms(), cexpr, U.coq_data(), cimpl), mt,
-              {"formula": desc, "fields": U.num_names + U.fac_names, "atoms": [list(a) for a in U.atoms], "rows": U.rows,
+              {"formula": desc, "universe": U.describe(), "atoms": [list(a) for a in U.atoms], "rows": U.rows,
                "impl": None if impl is None else [[k, list(m), c] for k, m, c in impl]})
         if i in (7, 20):
-            ck.sample({"formula": desc, "fields": U.num_names + U.fac_names, "rows": U.rows[:3],
+            ck.sample({"formula": desc, "universe": U.describe(), "rows": U.rows[:3],
                        "design_columns": None if impl is None else [(k, list(m), c[:3]) for k, m, c in impl[:5]]})
     # Factor partition oracle
     nF = ck.n(30, 300)
     for i in range(nF):
         U = Universe(rng, FM, 1, 1, int(rng.integers(1, 7)))
-        col = [r[1] for r in U.rows]
-        fac = FM.Factor.fromcol(np.array(col), "f") if i % 2 else FM.Factor("f", sorted(set(col)))
+        fname = U.fac_names[0]
+        codes = [r[1] for r in U.rows]
+        col = [U.py_value(1, c) for c in codes]
+        ulev = sorted(set(col))
+        fac = FM.Factor.fromcol(U.data[fname], fname) if i % 2 else FM.Factor(fname, ulev)
         d = fac.design(U.data)
         M = np.array([[float(v) for v in row] for row in d.tolist()]).reshape(len(col), -1)
-        ck.count(("factor", tuple(col)), bucket="factor:levels=%d" % len(set(col)))
-        ok = np.all((M == 0) | (M == 1)) and np.all(M.sum(1) == 1) and M.shape[1] == len(set(col))
+        ck.count(("factor", fname, tuple(col)), bucket="factor:levels=%d" % len(ulev))
+        ok = np.all((M == 0) | (M == 1)) and np.all(M.sum(1) == 1) and M.shape[1] == len(ulev)
         if ok:
-            for j, lev in enumerate(sorted(set(col))):
-                nm = "f_%d" % lev
+            for lev in ulev:
+                nm = "%s_%s" % (fname, lev)
                 if nm not in d.dtype.names or [int(v) for v in np.asarray(d[nm]).ravel()] != [1 if c == lev else 0 for c in col]:
                     ok = False
         if not ok:
-            ck.fail("factor/indicators-partition", "Factor design of column %s is not the level-indicator partition: %s %s" % (col, d.dtype.names, M.tolist()),
-                    {"column": col, "names": list(d.dtype.names), "design": M.tolist()})
+            ck.fail("factor/indicators-partition", "Factor %s design of column %s is not the level-indicator partition: %s %s" % (fname, col, d.dtype.names, M.tolist()),
+                    {"factor": fname, "column": [str(c) for c in col], "names": list(d.dtype.names), "design": M.tolist()})
     n = B.run()
-    ck.section("formulae", cases=N, model_cases=n, formulas_with_repeated_term=n_dup, factor_cases=nF)
+    ck.section("formulae", cases=N, model_cases=n, formulas_with_repeated_term=n_dup, factor_cases=nF, name_order_features=feats)
 
 
 # ----------------------------------------------------------------------------
@@ -668,7 +730,7 @@ def sec_contrasts(ck, FM):
         names = list(U.num_names)
         f = sum(parts[1:], parts[0])
         if U.nfac:
-            fac = FM.Factor("f", sorted(set(r[nt] for r in U.rows)))
+            fac = U.make_factor(0, sorted(set(r[nt] for r in U.rows)))[0]
             f = f + fac
         elif i % 4 == 0:
             f = f + FM.I
@@ -687,7 +749,7 @@ def sec_contrasts(ck, FM):
             D2, C = f.design(U.data, contrasts=cons)
         except Exception as e:  # noqa
             ck.fail("contrast/raises", "design(..., contrasts=%s) raised %s: %s" % (sorted(cons), type(e).__name__, e),
-                    {"rows": U.rows, "fields": U.num_names + U.fac_names, "design_columns": colnames, "contrasts": sorted(cons)})
+                    {"rows": U.rows, "universe": U.describe(), "design_columns": colnames, "contrasts": sorted(cons)})
             continue
         done += 1
         ck.count(("contrast", tuple(map(tuple, U.rows)), tuple(sel)), bucket="contrast:cols=%d" % D.shape[1])
@@ -700,7 +762,7 @@ def sec_contrasts(ck, FM):
             if got.shape != want.shape or np.max(np.abs(got - want)) > 1e-8:
                 ck.fail("contrast/selects-named-columns",
                         "contrast %s of a full-rank design with columns %s is %s, expected the selector of %s" % (key, colnames, np.round(got, 6).tolist(), want_names),
-                        {"rows": U.rows, "fields": U.num_names + U.fac_names, "design_columns": colnames, "contrast": want_names, "impl": got.tolist()})
+                        {"rows": U.rows, "universe": U.describe(), "design_columns": colnames, "contrast": want_names, "impl": got.tolist()})
                 break
     ck.section("contrasts", cases=done)
     ck.trust.append("np.linalg.pinv (oracle): contrast selection is checked numerically (1e-8) on full-column-rank designs only")
